@@ -4,6 +4,7 @@ CONSTANTS
   Caps = {3, 5}
   Kinds = {"read", "write"}
   WhoPats = {"pair"}
+  Resets = FALSE
   Quiets = {FALSE}
 INVARIANT TypeOK
 INVARIANT InOrder
